@@ -65,18 +65,19 @@ Load(e) ==
     /\ act' = <<"Init", "", "">>
 
 (* ---- what was observed after the step agrees with the spec state ----------------------------- *)
+\* (written with primed variables, not as (P(e))': e is Trace[l + 1] and must not be primed with the rest)
 ObsOK(e) ==
-    /\ pc[e.p] = e.pc
-    /\ \A s \in DOMAIN e.s : slot[s] = e.s[s]
-    /\ \A x \in DOMAIN e.t : tmp[x] = TmpOf(e.t[x])
-    /\ ResEq(res[e.p], e.r)
-    /\ e.o = (IF e.g = "dl" THEN last[e.p] ELSE "")
+    /\ pc'[e.p] = e.pc
+    /\ \A s \in DOMAIN e.s : slot'[s] = e.s[s]
+    /\ \A x \in DOMAIN e.t : tmp'[x] = TmpOf(e.t[x])
+    /\ ResEq(res'[e.p], e.r)
+    /\ e.o = (IF e.g = "dl" THEN last'[e.p] ELSE "")
     /\ e.x = 0
 
 Bound(e) ==
-    CASE e.k = "step"  -> pc[e.p] = e.g /\ Step(e.p) /\ ObsOK(e)'
-      [] e.k = "crash" -> pc[e.p] = e.g /\ Crash(e.p) /\ ObsOK(e)'
-      [] e.k = "probe" -> ProbeStart(e.p) /\ cfg'[e.p].d = e.d /\ ObsOK(e)'
+    CASE e.k = "step"  -> pc[e.p] = e.g /\ Step(e.p) /\ ObsOK(e)
+      [] e.k = "crash" -> pc[e.p] = e.g /\ Crash(e.p) /\ ObsOK(e)
+      [] e.k = "probe" -> ProbeStart(e.p) /\ cfg'[e.p].d = e.d /\ ObsOK(e)
       [] OTHER -> FALSE
 
 (* ---- drift: keep the unobservable part, take the observable part from the event -------------- *)
